@@ -905,6 +905,9 @@ func buildIntrinsics() map[string]*Native {
 	reg("(*internal/godebug.Setting).IncNonDefault", func(ip *Interp, a []Value) Value { return nil })
 	reg("os.Getenv", func(ip *Interp, a []Value) Value { return MkStr("") })
 	reg("syscall.Getenv", func(ip *Interp, a []Value) Value { return Tuple{MkStr(""), tFalse} })
+	reg("time.runtimeNano", func(ip *Interp, a []Value) Value { return i64(0) })
+	reg("time.now", func(ip *Interp, a []Value) Value { return ip.clockNow() })
+	reg("math/rand.Seed", func(ip *Interp, a []Value) Value { return nil })
 	reg("runtime.KeepAlive", func(ip *Interp, a []Value) Value { return nil })
 
 	reg("internal/reflectlite.TypeOf", func(ip *Interp, a []Value) Value {
@@ -932,6 +935,7 @@ func buildIntrinsics() map[string]*Native {
 	registerVerif(reg)
 	registerReflect(reg)
 	registerModels(reg)
+	registerJSON(reg)
 	return m
 }
 
